@@ -10,7 +10,7 @@ From Coq Require Import ZArith Reals List Bool.
 From PsdV Require Import Composite.Scalar Composite.Model Composite.Spec Composite.Geometry Composite.Doc
   Composite.ProofsKernel Composite.ProofsGeometry Composite.ProofsLaws Composite.ProofsLawsNS Composite.ProofsSim
   Composite.ProofsDoc Composite.ProofsViewport
-  Composite.ProofsInsert Composite.ProofsWrap Composite.Plane Composite.ProofsPlane Composite.ProofsNoopDoc.
+  Composite.ProofsInsert Composite.ProofsWrap Composite.Plane Composite.ProofsPlane Composite.ProofsNoopDoc Composite.ProofsWrapDoc.
 Import ListNotations.
 
 (* ---------------- geometry: _intersect and paste (index arithmetic on Z) *)
@@ -187,6 +187,31 @@ Example passthrough_wrap_document_example :
 Proof.
   repeat split; try reflexivity; repeat constructor;
     unfold is_byte, attrs_ok, bytes_ok; cbn; repeat constructor; unfold is_byte; try Lia.lia.
+Qed.
+
+(* wrapping at ANY depth and in several places at once: [wrapped l' l] = l' is l with ranges of whole clipping
+   runs - top level, inside groups, inside the wrapped ranges themselves - put into visible full-opacity
+   unmasked non-knockout pass-through groups.  Same shape, alpha and alpha*colour for every viewport. *)
+Theorem passthrough_wrap_anywhere (l' l : list layer) vp cb ab x y k :
+  wrapped l' l -> Forall layer_ok l' -> Forall layer_ok l -> unit cb -> unit ab -> inside vp x y = true ->
+  result_eq (@composite_doc ROps vp cb ab l' x y k) (@composite_doc ROps vp cb ab l x y k).
+Proof. exact (ProofsWrapDoc.passthrough_wrap_anywhere l' l vp cb ab x y k). Qed.
+Print Assumptions passthrough_wrap_anywhere.
+
+Example wrapped_example :
+  let at0 := MkAttrs true 200 255 BMultiply false None false in
+  let base := Px (0, 0, 2, 1)%Z [[51; 204]%Z] [255; 128]%Z at0 in
+  let clipl := Px (1, 0, 3, 1)%Z [[10; 20]%Z] [64; 255]%Z (MkAttrs true 128 64 BScreen true None false) in
+  let top := Px (0, 0, 1, 1)%Z [[7]%Z] [99]%Z at0 in
+  (* inside an isolated group, the run [base; clipl] is wrapped; at the top level [group; top] is wrapped too *)
+  wrapped [Gr true [Gr false [Gr true [base; clipl] wrap_attrs; top] at0; top] wrap_attrs]
+          [Gr false [base; clipl; top] at0; top].
+Proof.
+  cbv zeta.
+  apply (wr_wrap _ [Gr false [_; _; _] _; _] [] []); [reflexivity | exact I | repeat constructor | | apply wr_nil].
+  apply wr_group; [|apply wr_keep; apply wr_nil].
+  apply (wr_wrap _ [_; _] [_] [_]); [reflexivity | reflexivity | repeat constructor | | apply wr_keep; apply wr_nil].
+  apply wr_keep. apply wr_keep. apply wr_nil.
 Qed.
 
 (* ---------------- no-op layers inserted ANYWHERE: any positions of any sibling lists, inside groups at any
